@@ -46,7 +46,7 @@ func run(t *testing.T, tape *simrt.Tape) *hx.Outcome {
 		blob, files = b, fs
 		// TOC digest: let the layer tell (verification is not the subject here)
 	default:
-		spec := common.GenTar(d, tape.Seed, common.GenOpts{ChunkSize: cs, MaxEntries: 12})
+		spec := common.GenTar(d, tape.Seed, common.GenOpts{ChunkSize: cs, MaxEntries: 12, OddNames: d(3) == 0, BigFiles: d(3) == 0})
 		tb := spec.Bytes()
 		model, err := common.Model(tb)
 		if err != nil {
